@@ -91,6 +91,145 @@ pub fn tzif_get<S: Src>(s: &mut S) {
     core::mem::forget(tz);
 }
 
+/// `v2_estimate_tz_pair`: the candidate records for a local time (seconds "as if UTC") are exactly the types of the
+/// periods whose own offset maps the local time into that period
+pub fn estimate_pair<S: Src>(s: &mut S) {
+    use temporal_rs::tzdb::LocalTimeRecordResult as R;
+    let t = any_table(s, 2);
+    // periods longer than any two offsets apart (so that at most two periods can claim one local time),
+    // and the query far enough before the last transition that the POSIX footer is not consulted
+    for i in 1..MAX_T {
+        if i < t.n {
+            s.assume(t.times[i] - t.times[i - 1] > 400_000);
+        }
+    }
+    let l = s.i64_in(-4_100_000_000, 4_100_000_000);
+    s.assume(l + 200_000 < t.times[t.n - 1]);
+    // brute force: period -1 = (-inf, t0) with type 0; period i = [t_i, t_{i+1}) with types[i]
+    let mut cands = [0i64; MAX_T + 1];
+    let mut nc = 0usize;
+    {
+        let off = t.utoff[0];
+        if l - off < t.times[0] {
+            cands[nc] = off;
+            nc += 1;
+        }
+    }
+    for i in 0..MAX_T {
+        if i + 1 < t.n {
+            let off = t.utoff[t.types[i]];
+            let e = l - off;
+            if e >= t.times[i] && e < t.times[i + 1] {
+                cands[nc] = off;
+                nc += 1;
+            }
+        }
+    }
+    let tz = build(&t);
+    vcover!(s, "C15.pair.skipped_local_time", nc == 0);
+    vcover!(s, "C15.pair.repeated_local_time", nc == 2);
+    vcover!(s, "C15.pair.before_first_transition", l - t.utoff[0] < t.times[0] && nc == 1);
+    match tz.v2_estimate_tz_pair(&Seconds(l)) {
+        Ok(R::Empty) => vassert!(s, "C15.pair.empty_only_for_skipped_local_time", nc == 0),
+        Ok(R::Single(r)) => {
+            vassert!(s, "C15.pair.single_only_for_unique_local_time", nc == 1);
+            if nc == 1 {
+                vassert!(s, "C15.pair.single_offset_is_the_period_offset", r.offset == cands[0]);
+            }
+        }
+        Ok(R::Ambiguous { std, dst }) => {
+            vassert!(s, "C15.pair.two_only_for_repeated_local_time", nc == 2);
+            if nc == 2 {
+                vassert!(s, "C15.pair.both_offsets_are_the_period_offsets",
+                         (std.offset == cands[0] && dst.offset == cands[1]) || (std.offset == cands[1] && dst.offset == cands[0]));
+            }
+        }
+        Err(_) => vassert!(s, "C15.pair.answers_inside_table_span", false),
+    }
+    core::mem::forget(tz);
+}
+
+/// provider entry points over a cached synthetic zone: two transitions around 1960-06-15 (negative epoch seconds)
+fn provider_table<S: Src>(s: &mut S) -> Table {
+    const DAY0: i64 = -3487 * 86_400; // 1960-06-15T00:00:00Z
+    let mut t = Table { n: 2, times: [0; MAX_T], types: [0; MAX_T], ntypes: 3, utoff: [0; MAX_TYPES], dst: [false; MAX_TYPES] };
+    t.times[0] = s.i64_in(DAY0 - 100_000, DAY0 + 186_400);
+    t.times[1] = t.times[0] + 20_000_000;
+    t.times[2] = t.times[1] + 1;
+    for i in 0..2 {
+        t.types[i] = s.u8_in(0, 2) as usize;
+    }
+    for i in 0..MAX_TYPES {
+        t.utoff[i] = s.i64_in(-50_400, 50_400);
+        t.dst[i] = s.bool();
+    }
+    t
+}
+
+/// get_named_tz_offset_nanoseconds: the offset in force at an instant given in nanoseconds (before 1970: floor seconds)
+pub fn provider_offset<S: Src>(s: &mut S) {
+    use temporal_rs::provider::TimeZoneProvider;
+    let t = provider_table(s);
+    let e = s.i128_in(-3489 * 86_400_000_000_000, -3485 * 86_400_000_000_000);
+    let q = e.div_euclid(1_000_000_000) as i64;
+    let (want_off, _) = ref_offset(&t, q);
+    let p = temporal_rs::tzdb::FsTzdbProvider::verif_with_cached("Syn/Zone", build(&t));
+    vcover!(s, "C15.provider_offset.sub_second_before_transition", q + 1 == t.times[0] && e % 1_000_000_000 != 0);
+    match p.get_named_tz_offset_nanoseconds("Syn/Zone", e) {
+        Ok(o) => vassert!(s, "C15.provider_offset.offset_in_force_at_the_instant", o.offset == want_off),
+        Err(_) => vassert!(s, "C15.provider_offset.answers", false),
+    }
+    core::mem::forget(p);
+}
+
+/// get_named_tz_epoch_nanoseconds: exactly the instants whose wall-clock reading is the local date-time, ascending
+pub fn provider_candidates<S: Src>(s: &mut S) {
+    use temporal_rs::provider::TimeZoneProvider;
+    let t = provider_table(s);
+    let time = crate::common::any_time(s);
+    let tod = crate::common::time_ns(&time);
+    let mut date = temporal_rs::iso::IsoDate::default();
+    date.year = 1960;
+    date.month = 6;
+    date.day = 15;
+    let iso = temporal_rs::verif_hooks::iso_date_time_new_unchecked(date, time);
+    let l: i128 = -3487 * 86_400_000_000_000 + tod;
+    // brute force over the three periods (ascending in time)
+    let mut want = [0i128; 3];
+    let mut nw = 0usize;
+    for period in 0..3usize {
+        let off = if period == 0 { t.utoff[0] } else { t.utoff[t.types[period - 1]] };
+        let e = l - off as i128 * 1_000_000_000;
+        let sec = e.div_euclid(1_000_000_000) as i64;
+        let after_start = period == 0 || t.times[period - 1] <= sec;
+        let before_end = period == 2 || sec < t.times[period];
+        if after_start && before_end {
+            want[nw] = e;
+            nw += 1;
+        }
+    }
+    let p = temporal_rs::tzdb::FsTzdbProvider::verif_with_cached("Syn/Zone", build(&t));
+    vcover!(s, "C15.provider_candidates.repeated", nw == 2);
+    vcover!(s, "C15.provider_candidates.skipped", nw == 0);
+    match p.get_named_tz_epoch_nanoseconds("Syn/Zone", iso) {
+        Ok(v) => {
+            vassert!(s, "C15.provider_candidates.count", v.len() == nw);
+            if v.len() == nw && nw >= 1 {
+                vassert!(s, "C15.provider_candidates.first_is_the_earlier_instant", v[0].as_i128() == want[0]);
+            }
+            if v.len() == nw && nw == 2 {
+                vassert!(s, "C15.provider_candidates.second_is_the_later_instant", v[1].as_i128() == want[1]);
+            }
+            core::mem::forget(v);
+        }
+        Err(_) => vassert!(s, "C15.provider_candidates.answers", false),
+    }
+    core::mem::forget(p);
+}
+
 crate::harnesses! { REGISTRY;
     c15_tzif_get [unwind 5] = |s| tzif_get(s);
+    c15_provider_offset [unwind 9] = |s| provider_offset(s);
+    c15_provider_candidates [unwind 9] = |s| provider_candidates(s);
+    c15_estimate_pair [unwind 5] = |s| estimate_pair(s);
 }
